@@ -502,11 +502,11 @@ def run(ctx):
         return
     import gen_serde
     try:
-        ex = gen_serde.extract()
-    except Exception as e:                                   # already reported as a broken translator obligation
+        walker = Walker(gen_serde.extract())
+    except Exception as e:     # (also reported as a broken translator obligation) go on: the differential suites look for a failing input
         ctx.obligation("extracted serde shapes available to the walker", False, str(e)[:500])
-        return
-    walker = Walker(ex)
+        walker = Walker({"types": {}})
+        walker.walk = lambda *a, **k: None
 
     n_rand = 400 if ctx.tier == "quick" else 4000
     sources = list(SYSTEMATIC) + [rand_program(ctx.rng) for _ in range(n_rand)]
